@@ -103,6 +103,10 @@ def obligations(tier, kf):
     for i, f in enumerate(WALKS):
         obs.append(Ob('w_walk', dict(f, nodes=7 if (not q or 'yname' in f) else 6), 1500,
                       desc='walk, filter #%d' % i))
+    # the directory the walk starts from is a symbolic link
+    wl = Ob('w_walk', dict(kf, nodes=6 if q else 7, link=0, **WALKS[2]), 1500,
+            desc='walk, filter #2, its literal prefix a/ is a symbolic link to a directory')
+    obs += [wl, wl.twin(), wl.mutant('walk_skips_symlinked_root')]
     obs.append(Ob('w_walk', dict(WALKS[0], nodes=5), 120).twin())
     # sensitivity twins
     obs.append(Ob('g_prune', {'pattern': 'a/**/b', 'M': 3, 'E': 2}, 300).mutant('glob_never_too_early'))
@@ -139,3 +143,23 @@ def conformance(tier):
                 else:
                     bad.append((p, s))
     return [('rglob.comp_match vs fnmatch.fnmatchcase', agree, 0, bad)]
+
+
+def classify(ob, cex):
+    """C11-F24 is the class 'symbolic link *below* a walk root': some pattern's literal prefix is
+    not at or below the link.  A failure while every pattern starts at the link is a new one."""
+    link = ob.params.get('link', -1)
+    if ob.fn != 'w_walk' or link < 0:
+        return None
+    yn = ob.params.get('yname', 'b')
+    skeleton = [['a'], [yn], ['a', 'a'], ['a', yn], ['a', 'a', 'a'], ['a', 'a', yn], [yn, 'a']]
+    node = skeleton[link]
+    for inc in ob.params.get('include', ['a/**/b', 'b/*']):
+        base = []
+        for b in [x for x in inc.split('/') if x]:
+            if '*' in b or '?' in b or '[' in b:
+                break
+            base.append(b)
+        if base[:len(node)] != node:
+            return 'C11-F24'
+    return None
